@@ -132,6 +132,14 @@ pub fn run(tier: Tier, replay: Option<Value>) -> ! {
         for (k, body) in ["printf 'a\\n\\n\\n'", "printf '\\n\\na'", "printf 'a b\\n c\\n'", "vprod 70000", "vprod 70000; vexit 4", "vprod 70000 u", "vprod 1048576 u", "vprod 300000 u | vcat", "vprod 8 u", "printf 'é\\n\\n'", "printf ''", "printf '\\n'", "vexit 5", "echo a; echo b >&2"].iter().enumerate() {
             cases.push(Case { script: format!("x=$({body})\necho \"st=$? len=${{#x}}\"\nprintf '%s' \"$x\" | vcons\n"), tags: vec!["cmdsub-only".into(), format!("body:{k}")] });
         }
+        // NUL bytes are dropped and trailing newlines trimmed, in that order of meaning: every output of <= 3
+        // symbols over {a, newline, NUL}
+        for b in crate::engine::enumerate::strings(&["a", "\\n", "\\0"], 3) {
+            if !b.contains("\\0") {
+                continue;
+            }
+            cases.push(Case { script: format!("x=$(printf '{b}' 2>/dev/null) 2>/dev/null\necho \"st=$? len=${{#x}}\"\nprintf '%s' \"$x\" | vcons\n"), tags: vec!["cmdsub-only".into(), "nul-bytes".into()] });
+        }
         // `read` consumes exactly one line from a shared descriptor
         for (k, s) in [
             "printf 'l1\\nl2\\nl3\\n' >f\n{ read a; vline; vcat; } <f\necho \"a=$a\"\n",
